@@ -454,6 +454,12 @@ func TestC12Trees(t *testing.T) {
 		surroundings := []string{"return %s;", "return %s;", "zz = %s; return zz;", "function zf() { return %s; }\nreturn zf();", "if ( true ) { return %s; }\nreturn \"no\";",
 			"function zt(q) { return q ? 1 : 2; }\nzu = zt(a) ? b : c;\nreturn %s;", "function zt(q) { if ( q ) { return [q][0] / 2; } return (q) ? -q : q / 1; }\nreturn %s;",
 			"zq = [a, b][1] / 2 - -c;\nzr = a ? (b) : [c];\nreturn %s;", "foreach zi in [1] { return %s; }", "switch ( 1 ) { case 1 { return %s; } }\nreturn \"no\";"}
+		// ... nor does what delimits it: brackets, braces, commas, the colon of a pair
+		surroundings = append(surroundings, "zz = [%s]; return zz[0];", "zz = {\"k\": %s}; return zz[\"k\"];", "return [1, %s, 2][1];", "zz = {\"j\": 0, \"k\": %s, \"l\": 2}; return zz.k;")
+		if !exp.Unspec && (exp.Err || exp.Val.K == lang.KInt || exp.Val.K == lang.KString) {
+			// as the key of a pair (a value that can be a key comes back as the key)
+			surroundings = append(surroundings, "foreach zk, zv in {%s: 1} { return zk; }\nreturn \"no\";", "foreach zk, zv in {%s: 1} { return zk; }\nreturn \"no\";")
+		}
 		surround := surroundings[gen.Uniform(rt, "surroundings", len(surroundings))]
 		for _, txt := range []string{minimal, redundant, full} {
 			c := &Case{Prop: "C12", Kind: "meaning", Script: fmt.Sprintf(surround, txt), Vars: vars, Exp: exp,
